@@ -1,5 +1,6 @@
 // Unit `cond`: src/etag.rs any_match / none_match and src/serving.rs parse_modified_hdrs (C04, part of C14).
 // Callee contracts on weak_eq / strong_eq / List::next are the ones discharged in unit `etag` (same spec file).
+#![feature(allocator_api)]
 use vstd::prelude::*;
 verus! {
 
